@@ -104,6 +104,9 @@ func genLifecycle(r rng, k int) *Spec {
 		t += 8 * sec
 	}
 	s.Duration = 10*sec + 20*h
+	if r.chance(0.5) {
+		s.YieldP, s.YieldMax = 0.3, h/4
+	}
 	s.Sample = sampleFor(h)
 	return s
 }
@@ -349,6 +352,9 @@ func genFaulty(r rng, k int) *Spec {
 		}
 	}
 	s.Duration = s.TTL + 10*sec
+	if r.chance(0.5) {
+		s.YieldP, s.YieldMax = 0.3, h/4
+	}
 	s.Sample = sampleFor(h)
 	return s
 }
@@ -553,6 +559,9 @@ func genHostile(r rng, k int) *Spec {
 		s.Rules[len(s.Rules)-1].To = s.Rules[len(s.Rules)-1].From + r.dur(100*ms, 3*sec)
 	}
 	s.Duration = s.TTL + 6*sec
+	if r.chance(0.5) {
+		s.YieldP, s.YieldMax = 0.3, h/4
+	}
 	s.Sample = sampleFor(h)
 	return s
 }
@@ -645,6 +654,9 @@ func genPrioRace(r rng, k int) *Spec {
 		s.Actions = append(s.Actions, Action{After: r.dur(100*ms, 3*sec), Kind: r.pickS("restart", "stop", "start"), Inst: s.Insts[r.IntN(n)].Name, Stop: randStop(r)})
 	}
 	s.Duration = 20*h + 8*sec
+	if r.chance(0.5) {
+		s.YieldP, s.YieldMax = 0.3, h/4
+	}
 	s.Sample = sampleFor(h)
 	return s
 }
@@ -877,12 +889,15 @@ func genMultiTerm(r rng, k int) *Spec {
 			s.Actions = append(s.Actions, Action{At: at, Kind: "output", Inst: "g0", Val: `{"id":"intruder","token":"y"}`})
 			s.Rules = append(s.Rules, FaultRule{Client: x, From: at, To: at + 3*h, Kind: "err", Err: "timeout"})
 		case 8:
-			s.Actions = append(s.Actions, Action{At: at, Kind: "stop", Inst: x, Stop: randStop(r)}, Action{At: at + r.dur(100*ms, 2*sec), Kind: "start", Inst: x})
+			s.Actions = append(s.Actions, Action{At: at, Kind: "stop", Inst: x, Stop: randStop(r)}, Action{After: ms, Kind: "waitapi", Inst: x, D: 12 * sec}, Action{After: r.dur(100*ms, 2*sec), Kind: "start", Inst: x})
 		default:
 			s.Actions = append(s.Actions, Action{At: at, Kind: "partition", Inst: x}, Action{At: at + r.dur(3*h, 10*h), Kind: "heal", Inst: x})
 		}
 	}
 	s.Duration = s.TTL + 8*sec
+	if r.chance(0.5) {
+		s.YieldP, s.YieldMax = 0.3, h/4
+	}
 	s.Sample = sampleFor(h)
 	return s
 }
